@@ -243,8 +243,17 @@ func c18Expr(c *fw.Ctx, tree *enode, si int) {
 						cands = append(cands, unquoteIdent(id))
 					}
 					for _, l := range cands {
-						if strings.Contains(ae.Message, " "+l+" ") {
-							named = true
+						// the name as a whole word, whatever punctuation the message puts around it
+						if i := strings.Index(ae.Message, l); i >= 0 {
+							isWord := func(r byte) bool { return r == '_' || r >= '0' && r <= '9' || r >= 'A' && r <= 'Z' || r >= 'a' && r <= 'z' || r >= 0x80 }
+							for ; i >= 0; i = indexFrom(ae.Message, l, i+1) {
+								before := i == 0 || !isWord(ae.Message[i-1])
+								after := i+len(l) == len(ae.Message) || !isWord(ae.Message[i+len(l)])
+								if before && after {
+									named = true
+									break
+								}
+							}
 						}
 					}
 					if !named {
@@ -254,6 +263,16 @@ func c18Expr(c *fw.Ctx, tree *enode, si int) {
 			}
 		}
 	}
+}
+
+func indexFrom(s, sub string, from int) int {
+	if from >= len(s) {
+		return -1
+	}
+	if i := strings.Index(s[from:], sub); i >= 0 {
+		return from + i
+	}
+	return -1
 }
 
 func c18Names(vc variables.IVariableCollection) []string {
